@@ -287,7 +287,7 @@ PROPS["C13"] = dict(
     level_text="All crash points of each traced run are enumerated; the oracle is equality with some prefix model (no holes, no reordering) with a lower bound on the prefix.",
     level_note="a rotation counts as completed when the next numbered WAL file has been created (the previous one was flushed and closed before); runs are samples of programs x schedules",
     assumptions=CRASH_ASSUME,
-    require_labels=["win:wal-rotation", "win:flush", "small-program"],
+    require_labels=["win:wal-rotation", "win:flush", "small-program", "large-program-over-4MiB-of-log"],
     quick=dict(shards=16, checks=1, shrink_s=1, env=dict(VERIF_SHRINK_S=20)),
     thorough=dict(shards=16, checks=20, shrink_s=1, timeout_s=7200, env=dict(VERIF_SHRINK_S=60), require_labels=["win:wal-rotation", "win:flush", "small-program", "large-program-over-4MiB-of-log", "lost-suffix-of-acknowledged-writes"]),
 )
